@@ -1,15 +1,16 @@
 (* DenLink.v — the reference semantics (demand-driven, continuation-passing) agrees with an EAGER LIST
-   semantics on the state-free fragment F0 of jq: identity, scalar literals, pipe, comma, empty, t[], t.k,
-   if/else, try/catch, error, length, `src as $x | body`, $x.  den0 is written clause by clause like
-   coq/c01vm/Den.v (seq / bind_list / bind), over the values and natives of coq/sem; F0 is the part of
-   c01vm's fragment F whose evaluation allocates no cell and no fresh id (so that no frame lemma is
-   needed).  This is the Sem side of the link Sem <-> Den <-> VM (coq/c01vm proves Den <-> VM). *)
+   semantics on the fragment F0 of jq: identity, scalar literals, pipe, comma, empty, t[], t.k, if/else,
+   try/catch, error, length, `src as $x | body`, $x, [q], reduce, foreach, //, label/break.  den0 is written
+   clause by clause like coq/c01vm/Den.v (seq / bind_list / bind), over the values and natives of coq/sem.
+   Constructs that keep a cell or a label alive while their consumer runs are handled by a frame property
+   of continuations (K_ok) and, for labels, by the invariance of den0 under renamings of label ids (den0_ren).
+   This is the Sem side of the link Sem <-> Den <-> VM (coq/c01vm proves Den <-> VM). *)
 From Coq Require Import String.
 From Coq Require Import List ZArith NArith Bool Lia.
 From Verif Require Import common.Sexp sem.JV sem.Syntax sem.Natives sem.Sem sem.SemProofs.
 Import ListNotations.
 
-(* the state-free fragment F0 (the part of coq/c01vm's fragment F that needs no cell and no fresh id) *)
+(* the fragment F0 *)
 Inductive q0 :=
 | Z0Id
 | Z0Null | Z0Bool (b : bool) | Z0Num (t : bytes) (n : num) | Z0Str (s : bytes)
@@ -26,7 +27,9 @@ Inductive q0 :=
 | Z0Array (q : q0)                            (* [q] *)
 | Z0Reduce (src : q0) (x : bytes) (init upd : q0)    (* reduce src as $x (init; upd) *)
 | Z0Alt (a b : q0)                             (* a // b *)
-| Z0Foreach (src : q0) (x : bytes) (init upd : q0) (ext : option q0).   (* foreach src as $x (init; upd [; ext]) *)
+| Z0Foreach (src : q0) (x : bytes) (init upd : q0) (ext : option q0)   (* foreach src as $x (init; upd [; ext]) *)
+| Z0Label (nm : bytes) (body : q0)            (* label $nm | body ; nm carries the $ *)
+| Z0Break (nm : bytes).                       (* break $nm *)
 
 Definition paren (q : query) : term := Term (TQuery q) [].
 
@@ -54,10 +57,33 @@ Fixpoint emb (q : q0) : query :=
   | Z0Reduce src x init upd => q_term (TReduce (emb src) (Pattern x [] []) (emb init) (emb upd))
   | Z0Alt a b => q_bin (emb a) OpAlt (emb b)
   | Z0Foreach src x init upd ext => q_term (TForeach (emb src) (Pattern x [] []) (emb init) (emb upd) (option_map emb ext))
+  | Z0Label nm body => q_term (TLabel nm (emb body))
+  | Z0Break nm => q_term (TBreak nm)
   end.
 
 (* eager list semantics, clause by clause as coq/c01vm/Den.v *)
 Definition result := (list jv * option exn)%type.
+
+(* labels: the ids bound in an environment, and an id above all of them.  Sem takes the label id from the
+   state's counter; the list semantics has no state and takes [lab_bound rho]: any id not bound in rho gives
+   the same result (den0_ren below). *)
+Fixpoint lab_ids (rho : env) : list N :=
+  match rho with
+  | [] => []
+  | BLabel _ l :: r => l :: lab_ids r
+  | _ :: r => lab_ids r
+  end.
+Fixpoint lab_bound (rho : env) : N :=
+  match rho with
+  | [] => 0%N
+  | BLabel _ l :: r => N.max (l + 1) (lab_bound r)
+  | _ :: r => lab_bound r
+  end.
+Definition label_res (id : N) (r : result) : result :=
+  match r with
+  | (ws, Some (XBreak l)) => if (l =? id)%N then (ws, None) else r
+  | _ => r
+  end.
 Definition rseq (r k : result) : result :=
   match r with
   | (ws, None) => (ws ++ fst k, snd k)
@@ -183,6 +209,11 @@ Fixpoint den0 (q : q0) (rho : env) (v : jv) : result :=
                 (fun w u => match ext with Some e => den0 e (BVar x (plain w) :: rho) u | None => ([u], None) end)
                 ws s0)
              ([], sx))
+  | Z0Label nm body => label_res (lab_bound rho) (den0 body (BLabel nm (lab_bound rho) :: rho) v)
+  | Z0Break nm => match lookup_label rho nm with
+                  | Some l => ([], Some (XBreak l))
+                  | None => ([], Some (XSkip (codes "undefined-label")))
+                  end
   end.
 
 End Den0.
@@ -257,12 +288,14 @@ Definition fr1 (val : tv) (s : sst) : sst :=
   mkst (outs s) (nout s) (cap s) (nextid s + 1)%N (inputs s) ((nextid s, val) :: cells s) (repsens s) (steps s).
 
 (* well-behaved continuations, relative to a state invariant Inv: they keep Inv, they leave the id counter
-   where it was (every id they allocate is dead when they return), and they do not see frames *)
+   where it was (every id they allocate is dead when they return), they do not see frames, and they break
+   only to labels that exist (ids below the counter) *)
 Record K_ok (Inv : sst -> Prop) (k : K) : Prop := {
   kg_ok : forall w s, Inv s -> Inv (snd (k (plain w) None s));
   kg_nid : forall w s, Inv s -> nextid (snd (k (plain w) None s)) = nextid s;
   kg_fr : forall w s val, Inv s ->
-          k (plain w) None (fr1 val s) = (fst (k (plain w) None s), fr1 val (snd (k (plain w) None s)))
+          k (plain w) None (fr1 val s) = (fst (k (plain w) None s), fr1 val (snd (k (plain w) None s)));
+  kg_brk : forall w s l, Inv s -> fst (k (plain w) None s) = inr (XBreak l) -> (l < nextid s)%N
 }.
 (* the invariant implies the representation flag and is stable under frames *)
 Definition inv_ok (Inv : sst -> Prop) : Prop :=
@@ -304,15 +337,34 @@ Proof.
   destruct (k1 (plain w) None s) as [[[]|x] s1]; [apply IH; exact H1|reflexivity].
 Qed.
 
+Lemma run_list_brk Inv k ws e s l : K_ok Inv k -> Inv s ->
+  fst (run_list k ws e s) = inr (XBreak l) -> (l < nextid s)%N \/ e = Some (XBreak l).
+Proof.
+  intros Hk. revert s. induction ws as [|w r IH]; intros s Hs; cbn [run_list].
+  - destruct e as [x|]; cbn; [|discriminate]. intros [= ->]. right. reflexivity.
+  - unfold bind. pose proof (kg_ok _ _ Hk w s Hs) as H1. pose proof (kg_nid _ _ Hk w s Hs) as H2.
+    pose proof (kg_brk _ _ Hk w s l Hs) as H3.
+    destruct (k (plain w) None s) as [[[]|x] s1]; cbn [fst snd] in *.
+    + intros E. destruct (IH s1 H1 E) as [Hl|He]; [left; lia|right; exact He].
+    + intros E. left. apply H3. exact E.
+Qed.
+
+(* the breaks a result ends with are below the counter of every Inv-state *)
+Definition brk_lt (Inv : sst -> Prop) (r : result) : Prop :=
+  forall s l, Inv s -> snd r = Some (XBreak l) -> (l < nextid s)%N.
+
 (* a continuation that is, on Inv-states, "run k over a list" is well-behaved when k is *)
 Lemma K_ok_of_eq Inv k (K' : K) (F : jv -> result) : inv_ok Inv -> K_ok Inv k ->
+  (forall w, brk_lt Inv (F w)) ->
   (forall w s, Inv s -> K' (plain w) None s = run_res k (F w) s) -> K_ok Inv K'.
 Proof.
-  intros [HI1 HI2] Hk He. constructor.
+  intros [HI1 HI2] Hk Hb He. constructor.
   - intros w s Hs. rewrite He by exact Hs. apply (run_list_ok Inv); assumption.
   - intros w s Hs. rewrite He by exact Hs. apply (run_list_nid Inv); assumption.
   - intros w s val Hs. rewrite He by (apply HI2; exact Hs). rewrite He by exact Hs.
     apply (run_list_fr Inv); assumption.
+  - intros w s l Hs. rewrite He by exact Hs. intros E.
+    destruct (run_list_brk Inv k _ _ s l Hk Hs E) as [H|H]; [exact H|]. apply (Hb w s l Hs H).
 Qed.
 
 Hypothesis Hempty : lookup_builtin bs (codes "empty") 0 = None.
@@ -323,6 +375,7 @@ Fixpoint vars_only (rho : env) : Prop :=
   match rho with
   | [] => True
   | BVar _ (_, None) :: r => vars_only r
+  | BLabel _ _ :: r => vars_only r
   | _ => False
   end.
 
@@ -347,6 +400,7 @@ Fixpoint ok0 (q : q0) : Prop :=
   | Z0Reduce src x init upd => is_var_name x = true /\ ok0 src /\ ok0 init /\ ok0 upd
   | Z0Alt a b => ok0 a /\ ok0 b
   | Z0Foreach src x init upd ext => is_var_name x = true /\ ok0 src /\ ok0 init /\ ok0 upd /\ match ext with Some e => ok0 e | None => True end
+  | Z0Label _ body => ok0 body
   | _ => True
   end.
 
@@ -361,13 +415,122 @@ Fixpoint need (q : q0) : nat :=
   | Z0Reduce src x init upd => 4 + Nat.max (need src) (Nat.max (need init) (need upd))
   | Z0Alt a b => 2 + Nat.max (need a) (need b)
   | Z0Foreach src x init upd ext => 4 + Nat.max (need src) (Nat.max (need init) (Nat.max (need upd) (match ext with Some e => need e | None => 0 end)))
+  | Z0Label _ body => 3 + need body
   | _ => 4
   end.
 
 Definition sim (q : q0) : Prop :=
   forall (n : nat) rho v k s (Inv : sst -> Prop), (need q <= n)%nat -> vars_only rho ->
-    inv_ok Inv -> K_ok Inv k -> Inv s ->
+    inv_ok Inv -> K_ok Inv k -> (forall s', Inv s' -> (lab_bound rho <= nextid s')%N) -> Inv s ->
     eval_q bs n rho (emb q) (plain v) None k s = run_res k (den0 rs q rho v) s.
+
+(* ---- the breaks a den0 result can end with are bound in the environment ---- *)
+Definition brk_in (ids : list N) (r : result) : Prop := forall l, snd r = Some (XBreak l) -> In l ids.
+
+Ltac trivb := let E := fresh "E" in intros ? E; cbn in E; congruence.
+
+Lemma brk_in_rseq ids r k : brk_in ids r -> brk_in ids k -> brk_in ids (rseq r k).
+Proof. destruct r as [ws [x|]]; cbn; intros Hr Hk; [exact Hr|exact Hk]. Qed.
+
+Lemma brk_in_rbind ids r f : brk_in ids r -> (forall w, brk_in ids (f w)) -> brk_in ids (rbind r f).
+Proof.
+  intros Hr Hf. unfold rbind.
+  assert (H : brk_in ids (rbind_list (fst r) f)).
+  { induction (fst r) as [|w l IH]; [trivb|]. cbn. apply brk_in_rseq; [apply Hf|exact IH]. }
+  destruct (rbind_list (fst r) f) as [os [x|]]; [exact H|]. exact Hr.
+Qed.
+
+Lemma reduce_fold0_brk ids upd : (forall w acc, brk_in ids (upd w acc)) ->
+  forall ws acc l, reduce_fold0 upd ws acc = inr (XBreak l) -> In l ids.
+Proof.
+  intros Hu. induction ws as [|w r IH]; intros acc l E; cbn [reduce_fold0] in E; [discriminate|].
+  specialize (Hu w acc). destruct (upd w acc) as [us [x|]]; [|eapply IH; exact E].
+  injection E as ->. apply Hu. reflexivity.
+Qed.
+
+Lemma foreach_upd0_brk ids ext : (forall u, brk_in ids (ext u)) -> forall us acc, brk_in ids (fst (foreach_upd0 ext us acc)).
+Proof.
+  intros He. induction us as [|u r IH]; intros acc; cbn [foreach_upd0]; [trivb|].
+  specialize (He u). destruct (ext u) as [os [x|]]; [exact He|].
+  specialize (IH u). destruct (foreach_upd0 ext r u) as [[os' x] acc']. exact IH.
+Qed.
+
+Lemma foreach_fold0_brk ids upd ext : (forall w acc, brk_in ids (upd w acc)) -> (forall w u, brk_in ids (ext w u)) ->
+  forall ws acc, brk_in ids (foreach_fold0 upd ext ws acc).
+Proof.
+  intros Hu He. induction ws as [|w r IH]; intros acc; cbn [foreach_fold0]; [trivb|].
+  specialize (Hu w acc). destruct (upd w acc) as [us ux].
+  pose proof (foreach_upd0_brk ids (ext w) (He w) us acc) as HF.
+  destruct (foreach_upd0 (ext w) us acc) as [[os [x|]] acc']; [exact HF|].
+  destruct ux as [x|]; [exact Hu|]. apply brk_in_rseq; [trivb|apply IH].
+Qed.
+
+Lemma lookup_label_in rho nm l : lookup_label rho nm = Some l -> In l (lab_ids rho).
+Proof.
+  induction rho as [|b r IH]; [discriminate|]. destruct b; cbn [lookup_label lab_ids]; try exact IH.
+  destruct (list_N_eqb name nm); [intros [= ->]; left; reflexivity|intros H; right; apply IH; exact H].
+Qed.
+
+Lemma lab_ids_lt rho l : In l (lab_ids rho) -> (l < lab_bound rho)%N.
+Proof.
+  induction rho as [|b r IH]; [intros []|]. destruct b; cbn [lab_ids lab_bound]; try exact IH.
+  intros [->|H]; [lia|]. specialize (IH H). lia.
+Qed.
+
+Fixpoint den0_brk (q : q0) : forall rho v, brk_in (lab_ids rho) (den0 rs q rho v).
+Proof.
+  destruct q; intros rho v; cbn [den0]; try trivb.
+  - apply brk_in_rbind; [apply den0_brk|intros w; apply den0_brk].
+  - apply brk_in_rseq; apply den0_brk.
+  - apply brk_in_rbind; [apply den0_brk|intros w]. destruct w; trivb.
+  - apply brk_in_rbind; [apply den0_brk|intros w]. destruct (fn_index2 w (VStr (c :: k))); trivb.
+  - apply brk_in_rbind; [apply den0_brk|intros w]. destruct (truthy w); apply den0_brk.
+  - pose proof (den0_brk q rho v) as IH. destruct (den0 rs q rho v) as [ws [[[|d] c val| | | | |]|]]; try exact IH.
+    destruct h as [h|]; [|trivb].
+    destruct val as [e|]; [|trivb].
+    apply brk_in_rseq; [trivb|]. apply den0_brk.
+  - destruct (fn_length v); trivb.
+  - apply brk_in_rbind; [apply den0_brk|intros w]. apply (den0_brk q2 (bind_env rho x w) v).
+  - destruct (lookup_var rho x); trivb.
+  - pose proof (den0_brk q rho v) as IH. destruct (den0 rs q rho v) as [ws [x|]]; [|trivb].
+    intros l E. cbn in E. apply IH. exact E.
+  - apply brk_in_rbind; [apply den0_brk|intros s0].
+    pose proof (den0_brk q1 rho v) as IHs. destruct (den0 rs q1 rho v) as [ws sx].
+    destruct (reduce_fold0 _ ws s0) as [acc|e] eqn:ER.
+    + destruct sx as [e|]; [|trivb]. intros l E. cbn in E. apply IHs. exact E.
+    + intros l E. cbn in E. injection E as ->.
+      eapply reduce_fold0_brk; [|exact ER]. intros w acc. apply (den0_brk q3 (BVar x (plain w) :: rho) acc).
+  - pose proof (den0_brk q1 rho v) as IHa. destruct (den0 rs q1 rho v) as [ws [x|]].
+    + intros l E. cbn in E. apply IHa. exact E.
+    + destruct (filter truthy ws); [apply den0_brk|trivb].
+  - apply brk_in_rbind; [apply den0_brk|intros s0].
+    pose proof (den0_brk q1 rho v) as IHs. destruct (den0 rs q1 rho v) as [ws sx].
+    apply brk_in_rseq; [|exact IHs].
+    apply foreach_fold0_brk; [intros w acc; apply (den0_brk q3 (BVar x (plain w) :: rho) acc)|].
+    intros w u. destruct ext as [e|]; [apply (den0_brk e (BVar x (plain w) :: rho) u)|trivb].
+  - pose proof (den0_brk q (BLabel nm (lab_bound rho) :: rho) v) as IH. cbn [lab_ids] in IH.
+    destruct (den0 rs q (BLabel nm (lab_bound rho) :: rho) v) as [ws [[d c val|l| | | |]|]]; cbn [label_res]; try trivb.
+    destruct (N.eqb_spec l (lab_bound rho)) as [E|Hne]; [trivb|].
+    intros l' E. cbn in E. injection E as <-. destruct (IH l eq_refl) as [H|H]; [congruence|exact H].
+  - destruct (lookup_label rho nm) as [l|] eqn:E; [|trivb]. intros l' E'. cbn in E'. injection E' as <-.
+    eapply lookup_label_in. exact E.
+Qed.
+
+Lemma brk_lt_of_in (Inv : sst -> Prop) ids r : (forall s l, Inv s -> In l ids -> (l < nextid s)%N) -> brk_in ids r -> brk_lt Inv r.
+Proof. intros H Hb s l Hs E. apply (H s l Hs). apply Hb. exact E. Qed.
+
+Lemma den0_brk_lt (Inv : sst -> Prop) q rho v : (forall s, Inv s -> (lab_bound rho <= nextid s)%N) -> brk_lt Inv (den0 rs q rho v).
+Proof.
+  intros H. apply (brk_lt_of_in Inv (lab_ids rho)); [|apply den0_brk].
+  intros s l Hs Hl. specialize (H s Hs). apply lab_ids_lt in Hl. lia.
+Qed.
+
+Lemma in_lt (Inv : sst -> Prop) rho : (forall s, Inv s -> (lab_bound rho <= nextid s)%N) ->
+  forall s l, Inv s -> In l (lab_ids rho) -> (l < nextid s)%N.
+Proof. intros H s l Hs Hl. specialize (H s Hs). apply lab_ids_lt in Hl. lia. Qed.
+
+Lemma brk_lt_none (Inv : sst -> Prop) r : (forall l, snd r <> Some (XBreak l)) -> brk_lt Inv r.
+Proof. intros H s l _ E. exfalso. exact (H l E). Qed.
 
 Lemma run_single k w s : run_res k ([w], None) s = k (plain w) None s.
 Proof. unfold run_res. cbn [run_list fst snd]. unfold bind, ret. destruct (k (plain w) None s) as [[[]|x] s1]; reflexivity. Qed.
@@ -376,17 +539,18 @@ Ltac fuel2 n := do 2 (destruct n as [|n]; [cbn in *; lia|]).
 
 Lemma sim_leaves : sim Z0Id /\ sim Z0Null /\ (forall b, sim (Z0Bool b)) /\ (forall t m, sim (Z0Num t m)) /\ (forall x, sim (Z0Str x)).
 Proof.
-  repeat split; intros; intros n rho v k s Inv Hn _ _ _ _; fuel2 n; cbn [den0]; rewrite run_single; try reflexivity.
+  repeat split; intros; intros n rho v k s Inv Hn _ _ _ _ _; fuel2 n; cbn [den0]; rewrite run_single; try reflexivity.
   - destruct b; reflexivity.
   - destruct n as [|n]; [cbn in Hn; lia|]. reflexivity.
 Qed.
 
 Lemma sim_pipe a b : sim a -> sim b -> sim (Z0Pipe a b).
 Proof.
-  intros Ha Hb n rho v k s Inv Hn Hr HI Hk Hs. cbn [need] in Hn. destruct n as [|n]; [lia|].
+  intros Ha Hb n rho v k s Inv Hn Hr HI Hk Hlt Hs. cbn [need] in Hn. destruct n as [|n]; [lia|].
   cbn [emb den0]. rewrite pipe_law.
   assert (HK : K_ok Inv (fun x ps' => eval_q bs n rho (emb b) x ps' k)).
-  { apply (K_ok_of_eq Inv k _ (den0 rs b rho)); try assumption. intros w s' Hs'. apply (Hb _ _ _ _ _ Inv); try assumption. lia. }
+  { apply (K_ok_of_eq Inv k _ (den0 rs b rho)); try assumption; [intros w; apply den0_brk_lt; assumption|].
+    intros w s' Hs'. apply (Hb _ _ _ _ _ Inv); try assumption. lia. }
   rewrite (Ha _ _ _ _ _ Inv) by (try lia; assumption). unfold run_res at 1.
   rewrite (run_list_ext Inv _ (fun x _ => run_res k (den0 rs b rho (fst x)))); try assumption.
   - rewrite run_rbind. destruct (den0 rs a rho v); reflexivity.
@@ -395,7 +559,7 @@ Qed.
 
 Lemma sim_comma a b : sim a -> sim b -> sim (Z0Comma a b).
 Proof.
-  intros Ha Hb n rho v k s Inv Hn Hr HI Hk Hs. cbn [need] in Hn. destruct n as [|n]; [lia|].
+  intros Ha Hb n rho v k s Inv Hn Hr HI Hk Hlt Hs. cbn [need] in Hn. destruct n as [|n]; [lia|].
   cbn [emb den0]. rewrite comma_law. unfold bind. rewrite (Ha _ _ _ _ _ Inv) by (try lia; assumption).
   pose proof (run_list_ok Inv k (fst (den0 rs a rho v)) (snd (den0 rs a rho v)) s Hk Hs) as Hs1.
   unfold run_res in *. destruct (den0 rs a rho v) as [ws [x|]]; cbn [fst snd rseq] in *.
@@ -409,7 +573,7 @@ Qed.
 
 Lemma sim_empty : sim Z0Empty.
 Proof.
-  intros n rho v k s Inv Hn Hr HI _ _. cbn [need] in Hn. do 3 (destruct n as [|n]; [lia|]).
+  intros n rho v k s Inv Hn Hr HI _ _ _. cbn [need] in Hn. do 3 (destruct n as [|n]; [lia|]).
   cbn [emb den0]. unfold eval_q, q_call, q_term.
   cbn [evals_n step ev_q step_eval_q push_defs fold_left ev_t step_eval_t rev app ev_call].
   unfold step_call. cbn [List.length].
@@ -419,7 +583,7 @@ Qed.
 
 Lemma sim_error : sim Z0Error.
 Proof.
-  intros n rho v k s Inv Hn Hr HI _ _. cbn [need] in Hn. do 3 (destruct n as [|n]; [lia|]).
+  intros n rho v k s Inv Hn Hr HI _ _ _. cbn [need] in Hn. do 3 (destruct n as [|n]; [lia|]).
   cbn [emb den0]. unfold eval_q, q_call, q_term.
   cbn [evals_n step ev_q step_eval_q push_defs fold_left ev_t step_eval_t rev app ev_call].
   unfold step_call. cbn [List.length].
@@ -429,7 +593,7 @@ Qed.
 
 Lemma sim_length : sim Z0Length.
 Proof.
-  intros n rho v k s Inv Hn Hr HI _ Hs. cbn [need] in Hn. do 3 (destruct n as [|n]; [lia|]).
+  intros n rho v k s Inv Hn Hr HI _ _ Hs. cbn [need] in Hn. do 3 (destruct n as [|n]; [lia|]).
   cbn [emb den0]. unfold eval_q, q_call, q_term.
   cbn [evals_n step ev_q step_eval_q push_defs fold_left ev_t step_eval_t rev app ev_call].
   unfold step_call. cbn [List.length].
@@ -446,7 +610,7 @@ Qed.
 
 Lemma sim_var x : ok0 (Z0Var x) -> sim (Z0Var x).
 Proof.
-  intros [Hx Henv] n rho v k s Inv Hn Hr HI _ _. cbn [need] in Hn. do 3 (destruct n as [|n]; [lia|]).
+  intros [Hx Henv] n rho v k s Inv Hn Hr HI _ _ _. cbn [need] in Hn. do 3 (destruct n as [|n]; [lia|]).
   cbn [emb den0]. unfold eval_q, q_call, q_term.
   cbn [evals_n step ev_q step_eval_q push_defs fold_left ev_t step_eval_t rev app ev_call].
   unfold step_call. cbn [List.length]. rewrite Hx. cbn [andb Nat.eqb].
@@ -482,11 +646,12 @@ Ltac fold_eval :=
 
 Lemma sim_iter t : sim t -> sim (Z0Iter t).
 Proof.
-  intros Ht n rho v k s Inv Hn Hr HI Hk Hs. cbn [need] in Hn. do 4 (destruct n as [|n]; [lia|]).
+  intros Ht n rho v k s Inv Hn Hr HI Hk Hlt Hs. cbn [need] in Hn. do 4 (destruct n as [|n]; [lia|]).
   cbn [emb den0]. unfold eval_q. cbn [evals_n step ev_q step_eval_q push_defs fold_left ev_t step_eval_t rev app].
   fold_eval.
   assert (HK : K_ok Inv (fun x ps' => iterate x ps' k)).
-  { apply (K_ok_of_eq Inv k _ (iter_res rs)); try assumption. intros w s' Hs'. apply iterate_run. apply (proj1 HI). exact Hs'. }
+  { apply (K_ok_of_eq Inv k _ (iter_res rs)); try assumption; [intros w; apply brk_lt_none; intros l; destruct w; discriminate|].
+    intros w s' Hs'. apply iterate_run. apply (proj1 HI). exact Hs'. }
   rewrite (Ht _ _ _ _ _ Inv) by (try lia; assumption). unfold run_res at 1.
   rewrite (run_list_ext Inv _ (fun x _ => run_res k (iter_res rs (fst x)))); try assumption.
   - rewrite run_rbind. destruct (den0 rs t rho v); reflexivity.
@@ -504,12 +669,14 @@ Qed.
 
 Lemma sim_field t c key : sim t -> sim (Z0Field t c key).
 Proof.
-  intros Ht n rho v k s Inv Hn Hr HI Hk Hs. cbn [need] in Hn. do 4 (destruct n as [|n]; [lia|]).
+  intros Ht n rho v k s Inv Hn Hr HI Hk Hlt Hs. cbn [need] in Hn. do 4 (destruct n as [|n]; [lia|]).
   cbn [emb den0]. unfold eval_q. cbn [evals_n step ev_q step_eval_q push_defs fold_left ev_t step_eval_t rev app ev_index].
   unfold step_eval_index. cbn [index_key ev_t step step_eval_t rev app].
   fold_eval.
   assert (HK : K_ok Inv (fun x ps' => lift (fn_index2 (fst x) (VStr (c :: key))) (fun w => nav ps' x (VStr (c :: key)) w k))).
-  { apply (K_ok_of_eq Inv k _ (fun w => of_nres rs (fn_index2 w (VStr (c :: key))))); try assumption. intros w s' Hs'. apply index_run. apply (proj1 HI). exact Hs'. }
+  { apply (K_ok_of_eq Inv k _ (fun w => of_nres rs (fn_index2 w (VStr (c :: key))))); try assumption;
+      [intros w; apply brk_lt_none; intros l; destruct (fn_index2 w (VStr (c :: key))); discriminate|].
+    intros w s' Hs'. apply index_run. apply (proj1 HI). exact Hs'. }
   rewrite (Ht _ _ _ _ _ Inv) by (try lia; assumption). unfold run_res at 1.
   rewrite (run_list_ext Inv _ (fun x _ => run_res k (of_nres rs (fn_index2 (fst x) (VStr (c :: key)))))); try assumption.
   - rewrite (run_rbind k (fun w => of_nres rs (fn_index2 w (VStr (c :: key))))). destruct (den0 rs t rho v); reflexivity.
@@ -518,13 +685,14 @@ Qed.
 
 Lemma sim_if c a b : sim c -> sim a -> sim b -> sim (Z0If c a b).
 Proof.
-  intros Hc Ha Hb n rho v k s Inv Hn Hr HI Hk Hs. cbn [need] in Hn. do 3 (destruct n as [|n]; [lia|]).
+  intros Hc Ha Hb n rho v k s Inv Hn Hr HI Hk Hlt Hs. cbn [need] in Hn. do 3 (destruct n as [|n]; [lia|]).
   cbn [emb den0]. unfold eval_q, q_term. cbn [evals_n step ev_q step_eval_q push_defs fold_left ev_t step_eval_t rev app if_chain].
   fold_eval.
   set (K' := fun (x : tv) (_ : pst) => if truthy (fst x) then eval_q bs (S n) rho (emb a) (plain v) None k
                                        else eval_q bs (S n) rho (emb b) (plain v) None k).
   assert (HK : K_ok Inv K').
-  { apply (K_ok_of_eq Inv k _ (fun w => if truthy w then den0 rs a rho v else den0 rs b rho v)); try assumption.
+  { apply (K_ok_of_eq Inv k _ (fun w => if truthy w then den0 rs a rho v else den0 rs b rho v)); try assumption;
+      [intros w; destruct (truthy w); apply den0_brk_lt; assumption|].
     intros w s' Hs'. unfold K'. cbn [fst plain]. destruct (truthy w); [apply (Ha _ _ _ _ _ Inv)|apply (Hb _ _ _ _ _ Inv)]; try assumption; lia. }
   change (eval_q bs (S n) rho (emb c) (plain v) None K' s = run_res k (rbind (den0 rs c rho v) (fun w => if truthy w then den0 rs a rho v else den0 rs b rho v)) s).
   rewrite (Hc _ _ _ _ _ Inv) by (try lia; assumption). unfold run_res at 1.
@@ -606,18 +774,24 @@ Proof.
     apply depth0_rseq; [|exact IHs].
     apply foreach_fold0_depth0; [intros w acc; apply den0_depth0|].
     intros w u. destruct ext as [e|]; [apply den0_depth0|triv0].
+  - pose proof (den0_depth0 q (BLabel nm (lab_bound rho) :: rho) v) as IH.
+    destruct (den0 rs q (BLabel nm (lab_bound rho) :: rho) v) as [ws [[d c val|l| | | |]|]]; cbn [label_res]; try exact IH.
+    destruct (l =? lab_bound rho)%N; [triv0|exact IH].
+  - destruct (lookup_label rho nm); triv0.
 Qed.
 
 Lemma sim_try a h : sim a -> match h with Some h => sim h | None => True end -> sim (Z0Try a h).
 Proof.
-  intros Ha Hh n rho v k s Inv Hn Hr HI Hk Hs. cbn [need] in Hn. do 3 (destruct n as [|n]; [lia|]).
+  intros Ha Hh n rho v k s Inv Hn Hr HI Hk Hlt Hs. cbn [need] in Hn. do 3 (destruct n as [|n]; [lia|]).
   cbn [emb]. unfold eval_q, q_term. cbn [evals_n step ev_q step_eval_q push_defs fold_left ev_t step_eval_t rev app].
   fold_eval.
   assert (HK : K_ok Inv (fun y ps' => down (k y ps'))).
   { constructor.
     - intros w s' Hs'. unfold down. pose proof (kg_ok _ _ Hk w s' Hs') as H1. destruct (k (plain w) None s') as [[[]|[]] s1]; exact H1.
     - intros w s' Hs'. unfold down. pose proof (kg_nid _ _ Hk w s' Hs') as H1. destruct (k (plain w) None s') as [[[]|[]] s1]; exact H1.
-    - intros w s' val Hs'. unfold down. rewrite (kg_fr _ _ Hk w s' val Hs'). destruct (k (plain w) None s') as [[[]|[]] s1]; reflexivity. }
+    - intros w s' val Hs'. unfold down. rewrite (kg_fr _ _ Hk w s' val Hs'). destruct (k (plain w) None s') as [[[]|[]] s1]; reflexivity.
+    - intros w s' l Hs'. unfold down. pose proof (kg_brk _ _ Hk w s' l Hs') as H1.
+      destruct (k (plain w) None s') as [[[]|[]] s1]; cbn [fst] in *; try discriminate; exact H1. }
   unfold try_catch at 1.
   rewrite (Ha _ _ _ _ _ Inv) by (try lia; assumption).
   change (try_catch (run_res (fun y ps' => down (k y ps')) (den0 rs a rho v))
@@ -692,17 +866,19 @@ Proof.
     cbn [fst]. destruct a; try reflexivity.
     unfold set_cell, set_cells. cbn [fr1 cells cell_update outs nout cap nextid inputs repsens steps fst snd].
     destruct (N.eqb_spec (nextid s) c) as [E|_]; [lia|]. reflexivity.
+  - intros w s l _. unfold coll, bind, get_cell. destruct (cell_lookup (cells s) c) as [[a i]|]; [|discriminate].
+    cbn [fst]. destruct a; discriminate.
 Qed.
 
 Lemma sim_array q : sim q -> sim (Z0Array q).
 Proof.
-  intros Hq n rho v k s Inv Hn Hr HI Hk Hs. cbn [need] in Hn. do 3 (destruct n as [|n]; [lia|]).
+  intros Hq n rho v k s Inv Hn Hr HI Hk Hlt Hs. cbn [need] in Hn. do 3 (destruct n as [|n]; [lia|]).
   cbn [emb den0]. unfold eval_q, q_term. cbn [evals_n step ev_q step_eval_q push_defs fold_left ev_t step_eval_t rev app scoped_ids].
   fold_eval. unfold with_cell.
   change (fun (x : tv) (_ : pst) => a <- get_cell (nextid s);; match fst a with
             | VArr l => set_cell (nextid s) (plain (VArr (fst x :: l))) | _ => skipM "cell" end) with (coll (nextid s)).
   set (st := mkst (outs s) (nout s) (cap s) (nextid s + 1)%N (inputs s) ((nextid s, plain (VArr [])) :: cells s) (repsens s) (steps s)).
-  rewrite (Hq _ _ _ _ _ (inv_c (nextid s))); [|lia|assumption|apply inv_c_ok|apply coll_ok|split; [exact (proj1 HI _ Hs)|subst st; cbn [nextid]; lia]].
+  rewrite (Hq _ _ _ _ _ (inv_c (nextid s))); [|lia|assumption|apply inv_c_ok|apply coll_ok|intros s1 [_ H1]; specialize (Hlt s Hs); lia|split; [exact (proj1 HI _ Hs)|subst st; cbn [nextid]; lia]].
   unfold run_res. rewrite (coll_run (nextid s) (cells s) (fst (den0 rs q rho v)) (snd (den0 rs q rho v)) [] st eq_refl).
   subst st.
   destruct (den0 rs q rho v) as [ws [x|]]; cbn [fst snd set_cells cells cell_lookup cell_remove outs nout cap nextid inputs repsens steps].
@@ -734,6 +910,7 @@ Proof.
   - intros w s val [H1 H2]. unfold setter, set_cell, set_cells.
     cbn [fr1 cells cell_update outs nout cap nextid inputs repsens steps fst snd].
     destruct (N.eqb_spec (nextid s) c) as [E|_]; [lia|]. reflexivity.
+  - intros w s l _. discriminate.
 Qed.
 
 Lemma cell_lookup_update cs c v u : cell_lookup cs c = Some v -> cell_lookup (cell_update cs c u) c = Some u.
@@ -757,7 +934,7 @@ Qed.
 
 Lemma sim_reduce src x init upd : is_var_name x = true -> sim src -> sim init -> sim upd -> sim (Z0Reduce src x init upd).
 Proof.
-  intros Hx Hsrc Hinit Hupd n rho v k s Inv Hn Hr HI Hk Hs. cbn [need] in Hn. do 4 (destruct n as [|n]; [lia|]).
+  intros Hx Hsrc Hinit Hupd n rho v k s Inv Hn Hr HI Hk Hlt Hs. cbn [need] in Hn. do 4 (destruct n as [|n]; [lia|]).
   destruct x as [|cx x]; [discriminate Hx|].
   cbn [emb]. unfold eval_q, q_term. cbn [evals_n step ev_q step_eval_q push_defs fold_left ev_t step_eval_t rev app].
   fold_eval.
@@ -774,47 +951,51 @@ Proof.
   pose (InvC := fun (c : N) (s1 : sst) => inv_c c s1 /\ holds c s1).
   (* one item *)
   (* one item, wherever the cell sits *)
-  assert (Hitem0 : forall c w acc s1, inv_c c s1 -> cell_lookup (cells s1) c = Some (plain acc) ->
+  assert (Hitem0 : forall c w acc s1, (lab_bound rho <= c)%N -> inv_c c s1 -> cell_lookup (cells s1) c = Some (plain acc) ->
             Kitem c (plain w) None s1 = run_res (setter c) (upd0 w acc) s1).
-  { intros c w acc s1 Hs1 Hc. unfold Kitem. cbn [ev_bindpat step step_bind_pat].
+  { intros c w acc s1 Hc0 Hs1 Hc. unfold Kitem. cbn [ev_bindpat step step_bind_pat].
     unfold bind, get_cell. rewrite Hc.
     change (fun (u : tv) (_ : pst) => set_cell c u) with (setter c).
-    apply (Hupd _ _ _ _ _ (inv_c c)); [lia|exact Hr|apply inv_c_ok|apply setter_ok|exact Hs1]. }
+    apply (Hupd _ _ _ _ _ (inv_c c)); [lia|exact Hr|apply inv_c_ok|apply setter_ok|intros s2 [_ H2]; cbn [lab_bound]; lia|exact Hs1]. }
   (* one item, the cell on top *)
-  assert (Hitem : forall c cs w acc s1, cells s1 = (c, plain acc) :: cs -> inv_c c s1 ->
+  assert (Hitem : forall c cs w acc s1, (lab_bound rho <= c)%N -> cells s1 = (c, plain acc) :: cs -> inv_c c s1 ->
             Kitem c (plain w) None s1 =
             (match snd (upd0 w acc) with None => inl tt | Some e => inr e end,
              set_cells s1 ((c, plain (last (fst (upd0 w acc)) acc)) :: cs))).
-  { intros c cs w acc s1 Hc Hs1. rewrite (Hitem0 c w acc s1 Hs1) by (rewrite Hc; cbn [cell_lookup]; rewrite N.eqb_refl; reflexivity).
+  { intros c cs w acc s1 Hc0 Hc Hs1. rewrite (Hitem0 c w acc s1 Hc0 Hs1) by (rewrite Hc; cbn [cell_lookup]; rewrite N.eqb_refl; reflexivity).
     unfold run_res. apply (setter_run c cs _ _ acc s1 Hc). }
   assert (HInvC : forall c, inv_ok (InvC c)).
   { intros c. split; [intros s0 [[H0 _] _]; exact H0|]. intros s0 val [H0 [a Ha]]. split; [apply (proj2 (inv_c_ok c)); exact H0|].
     exists a. cbn [fr1 cells cell_lookup]. destruct H0 as [_ H0]. destruct (N.eqb_spec (nextid s0) c); [lia|exact Ha]. }
-  assert (HKitem : forall c, K_ok (InvC c) (Kitem c)).
-  { intros c. constructor.
-    - intros w s1 [Hs1 [acc Hc]]. rewrite (Hitem0 c w acc s1 Hs1 Hc). split.
+  assert (HKitem : forall c, (lab_bound rho <= c)%N -> K_ok (InvC c) (Kitem c)).
+  { intros c Hc0. constructor.
+    - intros w s1 [Hs1 [acc Hc]]. rewrite (Hitem0 c w acc s1 Hc0 Hs1 Hc). split.
       + apply (run_list_ok (inv_c c)); [apply setter_ok|exact Hs1].
       + apply setter_holds. exists acc. exact Hc.
-    - intros w s1 [Hs1 [acc Hc]]. rewrite (Hitem0 c w acc s1 Hs1 Hc). apply (run_list_nid (inv_c c)); [apply setter_ok|exact Hs1].
+    - intros w s1 [Hs1 [acc Hc]]. rewrite (Hitem0 c w acc s1 Hc0 Hs1 Hc). apply (run_list_nid (inv_c c)); [apply setter_ok|exact Hs1].
     - intros w s1 val [Hs1 [acc Hc]].
-      rewrite (Hitem0 c w acc (fr1 val s1)).
-      + rewrite (Hitem0 c w acc s1 Hs1 Hc). apply (run_list_fr (inv_c c)); [apply setter_ok|exact Hs1].
+      rewrite (Hitem0 c w acc (fr1 val s1) Hc0).
+      + rewrite (Hitem0 c w acc s1 Hc0 Hs1 Hc). apply (run_list_fr (inv_c c)); [apply setter_ok|exact Hs1].
       + apply (proj2 (inv_c_ok c)). exact Hs1.
-      + cbn [fr1 cells cell_lookup]. destruct Hs1 as [_ Hlt]. destruct (N.eqb_spec (nextid s1) c); [lia|exact Hc]. }
+      + cbn [fr1 cells cell_lookup]. destruct Hs1 as [_ Hlt1]. destruct (N.eqb_spec (nextid s1) c); [lia|exact Hc].
+    - intros w s1 l [Hs1 [acc Hc]]. rewrite (Hitem0 c w acc s1 Hc0 Hs1 Hc). intros E.
+      destruct (run_list_brk (inv_c c) (setter c) _ _ s1 l (setter_ok c) Hs1 E) as [H|H]; [exact H|].
+      pose proof (den0_brk upd (BVar (cx :: x) (plain w) :: rho) acc l H) as Hin. cbn [lab_ids] in Hin.
+      apply lab_ids_lt in Hin. destruct Hs1 as [_ Hlt1]. lia. }
   (* all items *)
-  assert (Hitems : forall c cs ws sx acc s1, cells s1 = (c, plain acc) :: cs -> inv_c c s1 ->
+  assert (Hitems : forall c cs ws sx acc s1, (lab_bound rho <= c)%N -> cells s1 = (c, plain acc) :: cs -> inv_c c s1 ->
             exists a', run_list (Kitem c) ws sx s1 =
             (match reduce_fold0 upd0 ws acc with
              | inr e => inr e
              | inl _ => match sx with None => inl tt | Some e => inr e end
              end, set_cells s1 ((c, plain a') :: cs)) /\
             (forall r, reduce_fold0 upd0 ws acc = inl r -> a' = r)).
-  { intros c cs ws sx. induction ws as [|w r IH]; intros acc s1 Hc Hs1; cbn [run_list reduce_fold0].
+  { intros c cs ws sx. induction ws as [|w r IH]; intros acc s1 Hc0 Hc Hs1; cbn [run_list reduce_fold0].
     - exists acc. split; [rewrite <- Hc; destruct s1; destruct sx; reflexivity|]. intros r [= <-]. reflexivity.
-    - unfold bind. rewrite (Hitem c cs w acc s1 Hc Hs1).
+    - unfold bind. rewrite (Hitem c cs w acc s1 Hc0 Hc Hs1).
       destruct (upd0 w acc) as [us [e|]]; cbn [fst snd].
       + exists (last us acc). split; [reflexivity|]. intros r0 E; discriminate.
-      + destruct (IH (last us acc) (set_cells s1 ((c, plain (last us acc)) :: cs)) eq_refl Hs1) as [a' [E1 E2]].
+      + destruct (IH (last us acc) (set_cells s1 ((c, plain (last us acc)) :: cs)) Hc0 eq_refl Hs1) as [a' [E1 E2]].
         exists a'. rewrite E1, set_cells_twice. split; [reflexivity|exact E2]. }
   (* the continuation of init *)
   set (K' := fun (s0 : tv) (ps0 : pst) =>
@@ -823,9 +1004,9 @@ Proof.
   { intros w0 s' Hs'. unfold K', with_cell. cbn [scoped_ids].
     set (st := mkst (outs s') (nout s') (cap s') (nextid s' + 1)%N (inputs s') ((nextid s', plain w0) :: cells s') (repsens s') (steps s')).
     assert (Hst : inv_c (nextid s') st) by (split; [exact (proj1 HI _ Hs')|subst st; cbn [nextid]; lia]).
-    rewrite (Hsrc _ _ _ _ _ (InvC (nextid s'))); [|lia|exact Hr|apply HInvC|apply HKitem|split; [exact Hst|exists w0; subst st; cbn [cells cell_lookup]; rewrite N.eqb_refl; reflexivity]].
+    rewrite (Hsrc _ _ _ _ _ (InvC (nextid s'))); [|lia|exact Hr|apply HInvC|apply HKitem; apply Hlt; exact Hs'|intros s2 [[_ H2] _]; specialize (Hlt s' Hs'); lia|split; [exact Hst|exists w0; subst st; cbn [cells cell_lookup]; rewrite N.eqb_refl; reflexivity]].
     unfold run_res.
-    destruct (Hitems (nextid s') (cells s') (fst (den0 rs src rho v)) (snd (den0 rs src rho v)) w0 st eq_refl Hst) as [a' [E1 E2]].
+    destruct (Hitems (nextid s') (cells s') (fst (den0 rs src rho v)) (snd (den0 rs src rho v)) w0 st (Hlt s' Hs') eq_refl Hst) as [a' [E1 E2]].
     rewrite E1. unfold F. destruct (den0 rs src rho v) as [ws sx]. cbn [fst snd] in *.
     destruct (reduce_fold0 upd0 ws w0) as [acc|e] eqn:ER.
     - specialize (E2 acc eq_refl). subst a'. destruct sx as [e|];
@@ -833,6 +1014,13 @@ Proof.
       + subst st. destruct s'; reflexivity.
       + change (run_list k (fst ([acc], None)) (snd ([acc], None)) s') with (run_res k ([acc], None) s'). rewrite run_single. subst st. destruct s'; reflexivity.
     - cbn [set_cells cells cell_remove outs nout cap nextid inputs repsens steps]. rewrite N.eqb_refl. subst st. destruct s'; reflexivity. }
+  assert (HFb : forall w0, brk_lt Inv (F w0)).
+  { intros w0. apply (brk_lt_of_in Inv (lab_ids rho)); [apply in_lt; exact Hlt|]. unfold F.
+    pose proof (den0_brk src rho v) as IHs. destruct (den0 rs src rho v) as [ws sx].
+    destruct (reduce_fold0 upd0 ws w0) as [acc|e] eqn:ER.
+    - destruct sx as [e|]; [|trivb]. intros l E. cbn in E. apply IHs. exact E.
+    - intros l E. cbn in E. injection E as ->.
+      eapply reduce_fold0_brk; [|exact ER]. intros w acc. apply (den0_brk upd (BVar (cx :: x) (plain w) :: rho) acc). }
   assert (HKok : K_ok Inv K') by (apply (K_ok_of_eq Inv k K' F); assumption).
   change (eval_q bs (S (S n)) rho (emb init) (plain v) None K' s = run_res k (den0 rs (Z0Reduce src (cx :: x) init upd) rho v) s).
   rewrite (Hinit _ _ _ _ _ Inv) by (try lia; assumption). unfold run_res at 1.
@@ -904,6 +1092,9 @@ Proof.
   - intros s1 val (fs & b & s0 & H0 & Hc & ->). exists (val :: fs), b, s0. auto.
 Qed.
 
+Lemma inv_alt_lt (Inv : sst -> Prop) c (B : N) : (forall s, Inv s -> (B <= nextid s)%N) -> forall s1, inv_alt Inv c s1 -> (B <= nextid s1)%N.
+Proof. intros H s1 (fs & b & s0 & H0 & _ & ->). rewrite frames_nextid. specialize (H s0 H0). lia. Qed.
+
 Lemma K1_ok Inv k c : inv_ok Inv -> K_ok Inv k -> K_ok (inv_alt Inv c) (K1 k c).
 Proof.
   intros HI Hk. constructor.
@@ -917,6 +1108,9 @@ Proof.
     change (fr1 val (frames fs (fr1 (plain (VBool b)) s0))) with (frames (val :: fs) (fr1 (plain (VBool b)) s0)).
     rewrite (K1_step Inv k w (val :: fs) b s0 HI Hk H0), (K1_step Inv k w fs b s0 HI Hk H0).
     destruct (truthy w); reflexivity.
+  - intros w s1 l (fs & b & s0 & H0 & <- & ->). rewrite (K1_step Inv k w fs b s0 HI Hk H0).
+    destruct (truthy w); cbn [fst]; [|discriminate]. intros E. pose proof (kg_brk _ _ Hk w s0 l H0 E).
+    rewrite frames_nextid. lia.
 Qed.
 
 Definition is_nil {A} (l : list A) : bool := match l with [] => true | _ => false end.
@@ -946,13 +1140,13 @@ Qed.
 
 Lemma sim_alt a b : sim a -> sim b -> sim (Z0Alt a b).
 Proof.
-  intros Ha Hb n rho v k s Inv Hn Hr HI Hk Hs. cbn [need] in Hn. do 2 (destruct n as [|n]; [lia|]).
+  intros Ha Hb n rho v k s Inv Hn Hr HI Hk Hlt Hs. cbn [need] in Hn. do 2 (destruct n as [|n]; [lia|]).
   cbn [emb]. unfold eval_q, q_bin. cbn [evals_n step ev_q step_eval_q push_defs fold_left scoped_ids].
   fold_eval. unfold with_cell.
   change (fun (x : tv) (ps' : pst) => if truthy (fst x) then set_cell (nextid s) (plain VTrue);; k x ps' else ret tt) with (K1 k (nextid s)).
   change (mkst (outs s) (nout s) (cap s) (nextid s + 1)%N (inputs s) ((nextid s, plain VFalse) :: cells s) (repsens s) (steps s))
     with (fr1 (plain (VBool false)) s).
-  rewrite (Ha _ _ _ _ _ (inv_alt Inv (nextid s))); [|lia|assumption|apply inv_alt_ok; assumption|apply K1_ok; assumption|exists [], false, s; auto].
+  rewrite (Ha _ _ _ _ _ (inv_alt Inv (nextid s))); [|lia|assumption|apply inv_alt_ok; assumption|apply K1_ok; assumption|apply inv_alt_lt; exact Hlt|exists [], false, s; auto].
   unfold run_res. destruct (alt_run Inv k (snd (den0 rs a rho v)) HI Hk (fst (den0 rs a rho v)) false s Hs) as [b' [E1 E2]].
   rewrite E1. cbn [den0].
   pose proof (run_list_nid Inv k (filter truthy (fst (den0 rs a rho v))) (snd (den0 rs a rho v)) s Hk Hs) as Hnid.
@@ -988,6 +1182,9 @@ Proof.
   - intros s1 v1 (fs & cur & s0 & H0 & Hc & ->). exists (v1 :: fs), cur, s0. auto.
 Qed.
 
+Lemma inv_frame_lt (Inv : sst -> Prop) c (B : N) : (forall s, Inv s -> (B <= nextid s)%N) -> forall s1, inv_frame Inv c s1 -> (B <= nextid s1)%N.
+Proof. intros H s1 (fs & b & s0 & H0 & _ & ->). rewrite frames_nextid. specialize (H s0 H0). lia. Qed.
+
 Definition Ku (k2 : K) (c : N) : K := fun u ps' => set_cell c u ;; k2 u ps'.
 
 Lemma Ku_step Inv k2 w fs val s0 : inv_ok Inv -> K_ok Inv k2 -> Inv s0 ->
@@ -1009,6 +1206,8 @@ Proof.
   - intros w s1 v1 (fs & cur & s0 & H0 & <- & ->).
     change (fr1 v1 (frames fs (fr1 (plain cur) s0))) with (frames (v1 :: fs) (fr1 (plain cur) s0)).
     rewrite (Ku_step Inv k2 w (v1 :: fs) (plain cur) s0 HI Hk H0), (Ku_step Inv k2 w fs (plain cur) s0 HI Hk H0). reflexivity.
+  - intros w s1 l (fs & cur & s0 & H0 & <- & ->). rewrite (Ku_step Inv k2 w fs (plain cur) s0 HI Hk H0). cbn [fst].
+    intros E. pose proof (kg_brk _ _ Hk w s0 l H0 E). rewrite frames_nextid. lia.
 Qed.
 
 Lemma Ku_run Inv k2 e : inv_ok Inv -> K_ok Inv k2 -> forall ws acc s0, Inv s0 ->
@@ -1088,7 +1287,7 @@ Qed.
 Lemma sim_foreach src x init upd ext : is_var_name x = true -> sim src -> sim init -> sim upd ->
   match ext with Some e => sim e | None => True end -> sim (Z0Foreach src x init upd ext).
 Proof.
-  intros Hx Hsrc Hinit Hupd Hext n rho v k s Inv Hn Hr HI Hk Hs. cbn [need] in Hn. do 4 (destruct n as [|n]; [lia|]).
+  intros Hx Hsrc Hinit Hupd Hext n rho v k s Inv Hn Hr HI Hk Hlt Hs. cbn [need] in Hn. do 4 (destruct n as [|n]; [lia|]).
   destruct x as [|cx x]; [discriminate Hx|].
   cbn [emb]. unfold eval_q, q_term. cbn [evals_n step ev_q step_eval_q push_defs fold_left ev_t step_eval_t rev app].
   fold_eval.
@@ -1104,7 +1303,13 @@ Proof.
   { intros w u s' Hs'. unfold Ek, ext0. destruct ext as [e|]; cbn [option_map].
     - apply (Hext _ _ _ _ _ Inv); try assumption. lia.
     - rewrite run_single. reflexivity. }
-  assert (HEkok : forall w, K_ok Inv (Ek w)) by (intros w; apply (K_ok_of_eq Inv k (Ek w) (ext0 w)); try assumption; apply HEk).
+  assert (Hextb : forall w u, brk_in (lab_ids rho) (ext0 w u)).
+  { intros w u. unfold ext0. destruct ext as [e|]; [apply (den0_brk e (BVar (cx :: x) (plain w) :: rho) u)|trivb]. }
+  assert (HEkok : forall w, K_ok Inv (Ek w)).
+  { intros w. apply (K_ok_of_eq Inv k (Ek w) (ext0 w)); try assumption; [|apply HEk].
+    intros u. apply (brk_lt_of_in Inv (lab_ids rho)); [apply in_lt; exact Hlt|apply Hextb]. }
+  assert (Hib : forall w cur, brk_in (lab_ids rho) (item_res upd0 ext0 w cur)).
+  { intros w cur. unfold item_res. apply brk_in_rbind; [apply (den0_brk upd (BVar (cx :: x) (plain w) :: rho) cur)|apply Hextb]. }
   set (Kit := fun (c : N) (item : tv) (ps1 : pst) =>
          ev_bindpat (step bs (step bs (evals_n bs n))) rho (Pattern (cx :: x) [] []) item ps1
            (fun rho' ps2 => cur <- get_cell c ;;
@@ -1131,7 +1336,7 @@ Proof.
     change (fun (u : tv) (ps3 : pst) => set_cell (nextid s0) u;; match option_map emb ext with
               | Some e => eval_q bs (S (S n)) (BVar (cx :: x) (plain w) :: rho) e u ps3 k | None => k u ps3 end)
       with (Ku (Ek w) (nextid s0)).
-    rewrite (Hupd _ _ _ _ _ (inv_frame Inv (nextid s0))); [|lia|exact Hr|apply inv_frame_ok; exact HI|apply Ku_ok; [exact HI|apply HEkok]|exists fs, cur, s0; auto].
+    rewrite (Hupd _ _ _ _ _ (inv_frame Inv (nextid s0))); [|lia|exact Hr|apply inv_frame_ok; exact HI|apply Ku_ok; [exact HI|apply HEkok]|apply inv_frame_lt; exact Hlt|exists fs, cur, s0; auto].
     change (den0 rs upd (BVar (cx :: x) (plain w) :: rho) cur) with (upd0 w cur).
     unfold run_res at 1. rewrite E1, ER. reflexivity. }
   assert (HKit : forall c, K_ok (inv_frame Inv c) (Kit c)).
@@ -1146,7 +1351,11 @@ Proof.
     - intros w s1 v1 (fs & cur & s0 & H0 & <- & ->).
       change (fr1 v1 (frames fs (fr1 (plain cur) s0))) with (frames (v1 :: fs) (fr1 (plain cur) s0)).
       destruct (Hitem w cur s0 H0) as [a1 [E1 _]].
-      rewrite (E1 (v1 :: fs)), (E1 fs). reflexivity. }
+      rewrite (E1 (v1 :: fs)), (E1 fs). reflexivity.
+    - intros w s1 l (fs & cur & s0 & H0 & <- & ->).
+      destruct (Hitem w cur s0 H0) as [acc' [E1 _]]. rewrite E1. cbn [fst]. intros E. rewrite frames_nextid.
+      destruct (run_list_brk Inv k _ _ s0 l Hk H0 E) as [H|H]; [lia|].
+      pose proof (in_lt Inv rho Hlt s0 l H0 (Hib w cur l H)). lia. }
   (* all items, the cell on top *)
   assert (Hitems : forall ws sx cur s0, Inv s0 ->
             exists acc', run_list (Kit (nextid s0)) ws sx (fr1 (plain cur) s0) =
@@ -1175,7 +1384,7 @@ Proof.
   { intros w0 s' Hs'. unfold K', with_cell. cbn [scoped_ids].
     change (mkst (outs s') (nout s') (cap s') (nextid s' + 1)%N (inputs s') ((nextid s', plain w0) :: cells s') (repsens s') (steps s'))
       with (fr1 (plain w0) s').
-    rewrite (Hsrc _ _ _ _ _ (inv_frame Inv (nextid s'))); [|lia|exact Hr|apply inv_frame_ok; exact HI|apply HKit|exists [], w0, s'; auto].
+    rewrite (Hsrc _ _ _ _ _ (inv_frame Inv (nextid s'))); [|lia|exact Hr|apply inv_frame_ok; exact HI|apply HKit|apply inv_frame_lt; exact Hlt|exists [], w0, s'; auto].
     unfold run_res at 1.
     destruct (Hitems (fst (den0 rs src rho v)) (snd (den0 rs src rho v)) w0 s' Hs') as [acc' E1]. rewrite E1.
     unfold F. destruct (den0 rs src rho v) as [ws sx]. cbn [fst snd].
@@ -1185,6 +1394,11 @@ Proof.
       cbn [fst snd fr1 cells cell_lookup cell_remove outs nout cap nextid inputs repsens steps] in *; rewrite Hnid, N.eqb_refl.
     - unfold ret. f_equal. rewrite <- Hnid. destruct sR; reflexivity.
     - f_equal. rewrite <- Hnid. destruct sR; reflexivity. }
+  assert (HFb : forall w0, brk_lt Inv (F w0)).
+  { intros w0. apply (brk_lt_of_in Inv (lab_ids rho)); [apply in_lt; exact Hlt|]. unfold F.
+    pose proof (den0_brk src rho v) as IHs. destruct (den0 rs src rho v) as [ws sx].
+    apply brk_in_rseq; [|exact IHs].
+    apply foreach_fold0_brk; [intros w acc; apply (den0_brk upd (BVar (cx :: x) (plain w) :: rho) acc)|apply Hextb]. }
   assert (HKok : K_ok Inv K') by (apply (K_ok_of_eq Inv k K' F); assumption).
   change (eval_q bs (S (S n)) rho (emb init) (plain v) None K' s = run_res k (den0 rs (Z0Foreach src (cx :: x) init upd ext) rho v) s).
   rewrite (Hinit _ _ _ _ _ Inv) by (try lia; assumption). unfold run_res at 1.
@@ -1197,7 +1411,7 @@ Proof. eexists. vm_compute. reflexivity. Qed.
 
 Lemma sim_bind src x body : is_var_name x = true -> sim src -> sim body -> sim (Z0Bind src x body).
 Proof.
-  intros Hx Hsrc Hbody n rho v k s Inv Hn Hr HI Hk Hs. cbn [need] in Hn. do 3 (destruct n as [|n]; [lia|]).
+  intros Hx Hsrc Hbody n rho v k s Inv Hn Hr HI Hk Hlt Hs. cbn [need] in Hn. do 3 (destruct n as [|n]; [lia|]).
   cbn [emb den0]. unfold eval_q. cbn [evals_n step ev_q step_eval_q push_defs fold_left].
   destruct syn_depth_S as [d Hd]. rewrite Hd.
   destruct x as [|c x]; [discriminate Hx|].
@@ -1207,13 +1421,230 @@ Proof.
                eval_q bs (S (S n)) (BVar (c :: x) x0 :: BVar (c :: x) (plain VNull) :: rho) (emb body) (plain v) None k).
   assert (HR : forall w, vars_only (bind_env rho (c :: x) w)) by (intros w; exact Hr).
   assert (HK : K_ok Inv K').
-  { apply (K_ok_of_eq Inv k _ (fun w => den0 rs body (bind_env rho (c :: x) w) v)); try assumption. intros w s' Hs'. unfold K'. apply (Hbody _ _ _ _ _ Inv); [lia|apply HR|assumption|assumption|assumption]. }
+  { apply (K_ok_of_eq Inv k _ (fun w => den0 rs body (bind_env rho (c :: x) w) v)); try assumption;
+      [intros w; apply den0_brk_lt; exact Hlt|].
+    intros w s' Hs'. unfold K'. apply (Hbody _ _ _ _ _ Inv); [lia|apply HR|assumption|assumption|exact Hlt|assumption]. }
   change (eval_q bs (S (S n)) rho (emb src) (plain v) None K' s =
           run_res k (rbind (den0 rs src rho v) (fun w => den0 rs body (bind_env rho (c :: x) w) v)) s).
   rewrite (Hsrc _ _ _ _ _ Inv) by (try lia; assumption). unfold run_res at 1.
   rewrite (run_list_ext Inv _ (fun x0 _ => run_res k ((fun w => den0 rs body (bind_env rho (c :: x) w) v) (fst x0)))); try assumption.
   - rewrite (run_rbind k (fun w => den0 rs body (bind_env rho (c :: x) w) v)). destruct (den0 rs src rho v); reflexivity.
-  - intros w s' Hs'. unfold K'. apply (Hbody _ _ _ _ _ Inv); [lia|apply HR|assumption|assumption|assumption].
+  - intros w s' Hs'. unfold K'. apply (Hbody _ _ _ _ _ Inv); [lia|apply HR|assumption|assumption|exact Hlt|assumption].
+Qed.
+
+
+(* ---- label / break ---- *)
+(* renaming of label ids: den0 treats ids parametrically *)
+Definition ren_b (p : N -> N) (b : binding) : binding := match b with BLabel nm l => BLabel nm (p l) | _ => b end.
+Definition ren_env (p : N -> N) (rho : env) : env := map (ren_b p) rho.
+Definition ren_exn (p : N -> N) (x : exn) : exn := match x with XBreak l => XBreak (p l) | _ => x end.
+Definition ren_res (p : N -> N) (r : result) : result := (fst r, option_map (ren_exn p) (snd r)).
+
+Lemma ren_rseq p a b : ren_res p (rseq a b) = rseq (ren_res p a) (ren_res p b).
+Proof. destruct a as [ws [x|]]; reflexivity. Qed.
+
+Lemma ren_rbind_list p ws f : ren_res p (rbind_list ws f) = rbind_list ws (fun w => ren_res p (f w)).
+Proof. induction ws as [|w r IH]; [reflexivity|]. cbn [rbind_list]. rewrite ren_rseq, IH. reflexivity. Qed.
+
+Lemma ren_rbind p r f : ren_res p (rbind r f) = rbind (ren_res p r) (fun w => ren_res p (f w)).
+Proof.
+  unfold rbind. cbn [ren_res fst]. rewrite <- ren_rbind_list.
+  destruct (rbind_list (fst r) f) as [os [x|]]; reflexivity.
+Qed.
+
+Lemma rbind_list_ext ws f g : (forall w, f w = g w) -> rbind_list ws f = rbind_list ws g.
+Proof. intros H. induction ws as [|w r IH]; [reflexivity|]. cbn [rbind_list]. rewrite H, IH. reflexivity. Qed.
+
+Lemma rbind_ext r f g : (forall w, f w = g w) -> rbind r f = rbind r g.
+Proof. intros H. unfold rbind. rewrite (rbind_list_ext _ f g H). reflexivity. Qed.
+
+Lemma reduce_fold0_ren p upd' upd : (forall w acc, upd' w acc = ren_res p (upd w acc)) ->
+  forall ws acc, reduce_fold0 upd' ws acc = match reduce_fold0 upd ws acc with inl a => inl a | inr e => inr (ren_exn p e) end.
+Proof.
+  intros H. induction ws as [|w r IH]; intros acc; cbn [reduce_fold0]; [reflexivity|].
+  rewrite H. destruct (upd w acc) as [us [x|]]; cbn [ren_res fst snd option_map]; [reflexivity|apply IH].
+Qed.
+
+Lemma foreach_fold0_ren p upd' upd ext' ext : (forall w acc, upd' w acc = ren_res p (upd w acc)) ->
+  (forall w u, ext' w u = ren_res p (ext w u)) ->
+  forall ws acc, foreach_fold0 upd' ext' ws acc = ren_res p (foreach_fold0 upd ext ws acc).
+Proof.
+  intros Hu He. induction ws as [|w r IH]; intros acc; [reflexivity|].
+  rewrite !foreach_fold0_cons, ren_rseq. f_equal.
+  - unfold item_res. rewrite Hu, ren_rbind. apply rbind_ext. apply He.
+  - rewrite Hu. cbn [ren_res fst]. apply IH.
+Qed.
+
+Lemma lookup_var_ren p rho x : lookup_var (ren_env p rho) x = lookup_var rho x.
+Proof. induction rho as [|b r IH]; [reflexivity|]. destruct b; cbn [ren_env map ren_b lookup_var]; try exact IH. destruct (list_N_eqb name x); [reflexivity|exact IH]. Qed.
+
+Lemma lookup_label_ren p rho nm : lookup_label (ren_env p rho) nm = option_map p (lookup_label rho nm).
+Proof. induction rho as [|b r IH]; [reflexivity|]. destruct b; cbn [ren_env map ren_b lookup_label]; try exact IH. destruct (list_N_eqb name nm); [reflexivity|exact IH]. Qed.
+
+Lemma lab_ids_ren p rho : lab_ids (ren_env p rho) = map p (lab_ids rho).
+Proof. induction rho as [|b r IH]; [reflexivity|]. destruct b; cbn [ren_env map ren_b lab_ids]; try exact IH. f_equal. exact IH. Qed.
+
+Lemma ren_env_ext p p' rho : (forall l, In l (lab_ids rho) -> p l = p' l) -> ren_env p rho = ren_env p' rho.
+Proof.
+  induction rho as [|b r IH]; intros H; [reflexivity|]. cbn [ren_env map].
+  destruct b; cbn [ren_b lab_ids] in *; try (f_equal; apply IH; exact H).
+  rewrite (H id) by (left; reflexivity). f_equal. apply IH. intros l Hl. apply H. right. exact Hl.
+Qed.
+
+Lemma ren_env_id p rho : (forall l, In l (lab_ids rho) -> p l = l) -> ren_env p rho = rho.
+Proof.
+  induction rho as [|b r IH]; intros H; [reflexivity|]. cbn [ren_env map].
+  destruct b; cbn [ren_b lab_ids] in *; try (f_equal; apply IH; exact H).
+  rewrite (H id) by (left; reflexivity). f_equal. apply IH. intros l Hl. apply H. right. exact Hl.
+Qed.
+
+Fixpoint den0_ren (q : q0) : forall p rho v, den0 rs q (ren_env p rho) v = ren_res p (den0 rs q rho v).
+Proof.
+  destruct q; intros p rho v; cbn [den0]; try reflexivity.
+  - rewrite ren_rbind, den0_ren. apply rbind_ext. intros w. apply den0_ren.
+  - rewrite ren_rseq, !den0_ren. reflexivity.
+  - rewrite ren_rbind, den0_ren. apply rbind_ext. intros w. destruct w; reflexivity.
+  - rewrite ren_rbind, den0_ren. apply rbind_ext. intros w. destruct (fn_index2 w (VStr (c :: k))); reflexivity.
+  - rewrite ren_rbind, den0_ren. apply rbind_ext. intros w. destruct (truthy w); apply den0_ren.
+  - rewrite den0_ren. destruct (den0 rs q rho v) as [ws [[[|d] c val|l| | | |]|]]; cbn [ren_res fst snd option_map ren_exn]; try reflexivity.
+    destruct h as [h|]; [|reflexivity]. destruct val as [e|]; [|reflexivity].
+    rewrite ren_rseq, den0_ren. reflexivity.
+  - destruct (fn_length v); reflexivity.
+  - rewrite ren_rbind, den0_ren. apply rbind_ext. intros w. exact (den0_ren q2 p (bind_env rho x w) v).
+  - rewrite lookup_var_ren. destruct (lookup_var rho x); reflexivity.
+  - rewrite den0_ren. destruct (den0 rs q rho v) as [ws [x|]]; reflexivity.
+  - rewrite ren_rbind, den0_ren. apply rbind_ext. intros s0. rewrite (den0_ren q1).
+    destruct (den0 rs q1 rho v) as [ws sx]. cbn [ren_res fst snd].
+    rewrite (reduce_fold0_ren p _ (fun w acc => den0 rs q3 (BVar x (plain w) :: rho) acc))
+      by (intros w acc; exact (den0_ren q3 p (BVar x (plain w) :: rho) acc)).
+    destruct (reduce_fold0 _ ws s0) as [acc|e]; [|reflexivity]. destruct sx; reflexivity.
+  - rewrite (den0_ren q1). destruct (den0 rs q1 rho v) as [ws [x|]]; cbn [ren_res fst snd option_map]; [reflexivity|].
+    destruct (filter truthy ws); [apply den0_ren|reflexivity].
+  - rewrite ren_rbind, den0_ren. apply rbind_ext. intros s0. rewrite (den0_ren q1).
+    destruct (den0 rs q1 rho v) as [ws sx]. cbn [ren_res fst snd]. rewrite ren_rseq. f_equal.
+    apply foreach_fold0_ren.
+    + intros w acc. exact (den0_ren q3 p (BVar x (plain w) :: rho) acc).
+    + intros w u. destruct ext as [e|]; [exact (den0_ren e p (BVar x (plain w) :: rho) u)|reflexivity].
+  - (* label: the id chosen under the renamed environment is the image of the id chosen under rho *)
+    set (ID := lab_bound rho). set (ID' := lab_bound (ren_env p rho)).
+    set (p' := fun i : N => if (i =? ID)%N then ID' else p i).
+    assert (E : BLabel nm ID' :: ren_env p rho = ren_env p' (BLabel nm ID :: rho)).
+    { cbn [ren_env map ren_b]. unfold p' at 1. rewrite N.eqb_refl. f_equal. apply ren_env_ext.
+      intros l Hl. unfold p'. apply lab_ids_lt in Hl. destruct (N.eqb_spec l ID); [subst ID; lia|reflexivity]. }
+    rewrite E, den0_ren.
+    pose proof (den0_brk q (BLabel nm ID :: rho) v) as Hb. cbn [lab_ids] in Hb.
+    destruct (den0 rs q (BLabel nm ID :: rho) v) as [ws [[d c val|l| | | |]|]]; cbn [ren_res fst snd option_map ren_exn label_res]; try reflexivity.
+    destruct (N.eqb_spec l ID) as [->|Hne].
+    + unfold p'. rewrite N.eqb_refl, N.eqb_refl. reflexivity.
+    + destruct (Hb l eq_refl) as [H|H]; [congruence|].
+      unfold p'. destruct (N.eqb_spec l ID); [contradiction|].
+      assert (Hlt' : (p l < ID')%N).
+      { apply lab_ids_lt. rewrite lab_ids_ren. apply in_map. exact H. }
+      destruct (N.eqb_spec (p l) ID'); [lia|]. unfold ren_res. cbn [fst snd option_map ren_exn].
+      destruct (N.eqb_spec l ID); [contradiction|]. reflexivity.
+  - rewrite lookup_label_ren. destruct (lookup_label rho nm); reflexivity.
+Qed.
+
+(* a well-behaved continuation is well-behaved under a frame *)
+Lemma k_frames1 Inv k w fs cur s0 : inv_ok Inv -> K_ok Inv k -> Inv s0 ->
+  k (plain w) None (frames fs (fr1 cur s0)) = (fst (k (plain w) None s0), frames fs (fr1 cur (snd (k (plain w) None s0)))).
+Proof.
+  intros HI Hk Hs. rewrite (k_frames Inv k w fs (fr1 cur s0) HI Hk) by (apply (proj2 HI); exact Hs).
+  rewrite (kg_fr _ _ Hk w s0 cur Hs). reflexivity.
+Qed.
+
+Lemma K_frame_ok Inv k c : inv_ok Inv -> K_ok Inv k -> K_ok (inv_frame Inv c) k.
+Proof.
+  intros HI Hk. constructor.
+  - intros w s1 (fs & cur & s0 & H0 & <- & ->). rewrite (k_frames1 Inv k w fs (plain cur) s0 HI Hk H0). cbn [snd].
+    exists fs, cur, (snd (k (plain w) None s0)). split; [apply (kg_ok _ _ Hk); exact H0|]. split; [apply (kg_nid _ _ Hk); exact H0|reflexivity].
+  - intros w s1 (fs & cur & s0 & H0 & <- & ->). rewrite (k_frames1 Inv k w fs (plain cur) s0 HI Hk H0). cbn [snd].
+    rewrite !frames_nextid. rewrite (kg_nid _ _ Hk w s0 H0). reflexivity.
+  - intros w s1 v1 (fs & cur & s0 & H0 & <- & ->).
+    change (fr1 v1 (frames fs (fr1 (plain cur) s0))) with (frames (v1 :: fs) (fr1 (plain cur) s0)).
+    rewrite (k_frames1 Inv k w (v1 :: fs) (plain cur) s0 HI Hk H0), (k_frames1 Inv k w fs (plain cur) s0 HI Hk H0). reflexivity.
+  - intros w s1 l (fs & cur & s0 & H0 & <- & ->). rewrite (k_frames1 Inv k w fs (plain cur) s0 HI Hk H0). cbn [fst].
+    intros E. pose proof (kg_brk _ _ Hk w s0 l H0 E). rewrite frames_nextid. lia.
+Qed.
+
+Lemma catch_break_eq l (m : M unit) s :
+  catch_break l m s = (match fst (m s) with
+                       | inr (XBreak l') => if (l' =? l)%N then inl tt else fst (m s)
+                       | a => a
+                       end, snd (m s)).
+Proof. unfold catch_break. destruct (m s) as [[[]|[]] s1]; cbn [fst snd]; try reflexivity. destruct (l0 =? l)%N; reflexivity. Qed.
+
+(* catching the break of a fresh label on a run = running the result with that break removed *)
+Lemma catch_run Inv k ws e s : K_ok Inv k -> Inv s ->
+  (match fst (run_list k ws e s) with
+   | inr (XBreak l') => if (l' =? nextid s)%N then inl tt else fst (run_list k ws e s)
+   | a => a
+   end, snd (run_list k ws e s)) = run_res k (label_res (nextid s) (ws, e)) s.
+Proof.
+  intros Hk Hs. unfold run_res.
+  assert (Hnb : forall e', e' <> Some (XBreak (nextid s)) ->
+            match fst (run_list k ws e' s) with
+            | inr (XBreak l') => if (l' =? nextid s)%N then inl tt else fst (run_list k ws e' s)
+            | a => a
+            end = fst (run_list k ws e' s)).
+  { intros e' He'. destruct (fst (run_list k ws e' s)) as [[]|[d c val|l| | | |]] eqn:E; try reflexivity.
+    destruct (N.eqb_spec l (nextid s)) as [->|]; [|reflexivity].
+    destruct (run_list_brk Inv k ws e' s (nextid s) Hk Hs E) as [H|H]; [lia|contradiction]. }
+  destruct e as [[d c val|l| | | |]|]; cbn [label_res fst snd];
+    try (rewrite Hnb by discriminate; destruct (run_list k ws _ s); reflexivity).
+  destruct (N.eqb_spec l (nextid s)) as [->|Hne]; cbn [fst snd].
+  - rewrite run_list_raise. unfold bind, raise.
+    pose proof (Hnb None ltac:(discriminate)) as H0.
+    destruct (run_list k ws None s) as [[[]|x] s1] eqn:E0; cbn [fst snd] in *.
+    + rewrite N.eqb_refl. reflexivity.
+    + rewrite H0. reflexivity.
+  - rewrite Hnb by congruence. destruct (run_list k ws _ s); reflexivity.
+Qed.
+
+Lemma sim_break nm : sim (Z0Break nm).
+Proof.
+  intros n rho v k s Inv Hn Hr HI _ _ _. cbn [need] in Hn. do 3 (destruct n as [|n]; [lia|]).
+  cbn [emb den0]. unfold eval_q, q_term.
+  cbn [evals_n step ev_q step_eval_q push_defs fold_left ev_t step_eval_t rev app].
+  destruct (lookup_label rho nm); reflexivity.
+Qed.
+
+Lemma sim_label nm body : sim body -> sim (Z0Label nm body).
+Proof.
+  intros Hb n rho v k s Inv Hn Hr HI Hk Hlt Hs. cbn [need] in Hn. do 3 (destruct n as [|n]; [lia|]).
+  cbn [emb]. unfold eval_q, q_term. cbn [evals_n step ev_q step_eval_q push_defs fold_left ev_t step_eval_t rev app scoped_ids].
+  fold_eval. unfold with_label, with_cell.
+  change (mkst (outs s) (nout s) (cap s) (nextid s + 1)%N (inputs s) ((nextid s, (VNull, None)) :: cells s) (repsens s) (steps s))
+    with (fr1 (plain VNull) s).
+  rewrite catch_break_eq.
+  rewrite (Hb _ _ _ _ _ (inv_frame Inv (nextid s))); [|lia|exact Hr|apply inv_frame_ok; exact HI|apply K_frame_ok; assumption| |exists [], VNull, s; auto].
+  2:{ intros s1 (fs & cur & s0 & H0 & Hc & ->). cbn [lab_bound]. rewrite frames_nextid. specialize (Hlt s0 H0). lia. }
+  set (rc := den0 rs body (BLabel nm (nextid s) :: rho) v).
+  unfold run_res. rewrite (run_list_fr Inv k _ _ s (plain VNull) Hk Hs). cbn [fst snd].
+  (* the renaming step: the id of den0 and the id of Sem give the same result *)
+  assert (HA : den0 rs (Z0Label nm body) rho v = label_res (nextid s) (fst rc, snd rc)).
+  { cbn [den0]. set (ID := lab_bound rho). set (p := fun i : N => if (i =? nextid s)%N then ID else i).
+    assert (E : BLabel nm ID :: rho = ren_env p (BLabel nm (nextid s) :: rho)).
+    { cbn [ren_env map ren_b]. unfold p at 1. rewrite N.eqb_refl. f_equal. symmetry. apply ren_env_id.
+      intros l Hl. unfold p. apply lab_ids_lt in Hl. specialize (Hlt s Hs). destruct (N.eqb_spec l (nextid s)); [lia|reflexivity]. }
+    rewrite E, den0_ren. fold rc.
+    pose proof (den0_brk body (BLabel nm (nextid s) :: rho) v) as Hbk. fold rc in Hbk. cbn [lab_ids] in Hbk.
+    destruct rc as [ws [[d c val|l| | | |]|]]; cbn [ren_res fst snd option_map ren_exn label_res]; try reflexivity.
+    destruct (N.eqb_spec l (nextid s)) as [->|Hne].
+    - unfold p. rewrite N.eqb_refl, N.eqb_refl. reflexivity.
+    - destruct (Hbk l eq_refl) as [H|H]; [congruence|]. apply lab_ids_lt in H. fold ID in H.
+      unfold ren_res, p. cbn [fst snd option_map ren_exn label_res].
+      destruct (N.eqb_spec l (nextid s)); [contradiction|]. destruct (N.eqb_spec l ID); [lia|reflexivity]. }
+  rewrite HA. clear HA. fold (run_res k (label_res (nextid s) (fst rc, snd rc)) s).
+  pose proof (catch_run Inv k (fst rc) (snd rc) s Hk Hs) as HC.
+  pose proof (run_list_nid Inv k (fst (label_res (nextid s) (fst rc, snd rc))) (snd (label_res (nextid s) (fst rc, snd rc))) s Hk Hs) as Hnid.
+  fold (run_res k (label_res (nextid s) (fst rc, snd rc)) s) in Hnid.
+  remember (run_res k (label_res (nextid s) (fst rc, snd rc)) s) as R' eqn:ER'. clear ER'.
+  pose proof (f_equal fst HC) as HC1. pose proof (f_equal snd HC) as HC2. cbn [fst snd] in HC1, HC2. rewrite HC1, HC2. clear HC HC1 HC2.
+  destruct R' as [[[]|x] sR]; cbn [fst snd fr1 cells cell_lookup cell_remove outs nout cap nextid inputs repsens steps] in *;
+    rewrite Hnid, N.eqb_refl.
+  - unfold ret. f_equal. rewrite <- Hnid. destruct sR; reflexivity.
+  - f_equal. rewrite <- Hnid. destruct sR; reflexivity.
 Qed.
 
 (* the reference semantics agrees with the eager list semantics on the state-free fragment *)
@@ -1236,6 +1667,8 @@ Proof.
   - apply sim_reduce; [tauto|apply sem_den0; tauto|apply sem_den0; tauto|apply sem_den0; tauto].
   - apply sim_alt; apply sem_den0; tauto.
   - apply sim_foreach; [tauto|apply sem_den0; tauto|apply sem_den0; tauto|apply sem_den0; tauto|destruct ext as [e|]; [apply sem_den0; tauto|exact I]].
+  - apply sim_label. apply sem_den0. exact H.
+  - apply sim_break.
 Qed.
 
 (* observation level: when the generator ends before the cap, the observation is the list *)
@@ -1273,6 +1706,7 @@ Proof.
   - intros w s Hs. unfold emit. destruct (Nat.leb (cap s) (S (nout s))); exact Hs.
   - intros w s _. unfold emit. destruct (Nat.leb (cap s) (S (nout s))); reflexivity.
   - intros w s val _. unfold emit. cbn [fr1 cap nout]. destruct (Nat.leb (cap s) (S (nout s))); reflexivity.
+  - intros w s l _. unfold emit. destruct (Nat.leb (cap s) (S (nout s))); discriminate.
 Qed.
 
 Theorem observe_den0 q : ok0 q -> forall n capn ins v,
@@ -1280,7 +1714,7 @@ Theorem observe_den0 q : ok0 q -> forall n capn ins v,
   observe bs n capn rs ins (emb q) v = (fst (den0 rs q [] v), ending_of (snd (den0 rs q [] v))).
 Proof.
   intros Hq n capn ins v Hn Hc. unfold observe.
-  rewrite (sem_den0 q Hq n [] v emit (init_state capn ins rs) inv_top Hn I inv_top_ok emit_ok eq_refl).
+  rewrite (sem_den0 q Hq n [] v emit (init_state capn ins rs) inv_top Hn I inv_top_ok emit_ok (fun s' _ => N.le_0_l (nextid s')) eq_refl).
   unfold run_res. destruct (run_emit (fst (den0 rs q [] v)) (snd (den0 rs q [] v)) (init_state capn ins rs)) as [s' [E1 E2]].
   { cbn [nout cap init_state]. lia. }
   rewrite E1. cbn [outs init_state] in E2. rewrite app_nil_r in E2.
